@@ -1,4 +1,423 @@
-//! C20 — placeholder while the worker is built.
+//! C20 — a page imported into another document is equal and self-contained (every case in a child process:
+//! the importer may recurse without bound on reference cycles).
+use crate::corpus::{valid_files, Sample};
+use crate::doc::{root_kind, Cfg};
+use crate::opsgen;
+use crate::panicmon::guard;
+use crate::props::c20_gen;
+use crate::refimpl::c20_walk::{self as rw, Walk};
+use crate::richdoc::{self, Layout};
+use crate::rng::{fnv, Rng};
 use crate::run::{Run, Tier};
-pub fn worker(_tier: Tier, _seed: u64) -> crate::sup::CaseFn<'static> { Box::new(|_, _, _| {}) }
-pub fn run(_run: &Run) { eprintln!("C20: check not built yet"); std::process::exit(2); }
+use crate::sup::{CaseFn, CaseOut};
+use crate::tape::Src;
+use crate::walk::{entry_id, ENTRY};
+use crate::with_file;
+use pdf::any::AnySync;
+use pdf::backend::Backend;
+use pdf::build::{CatalogBuilder, Importer, PageBuilder, PdfBuilder};
+use pdf::content::{Color, Op};
+use pdf::error::PdfError;
+use pdf::file::{Cache, File, FileOptions, Log};
+use pdf::object::{PlainRef, Resolve};
+use pdf::primitive::Primitive;
+use serde_json::json;
+use std::collections::BTreeMap;
+use std::sync::atomic::Ordering;
+use std::sync::Arc;
+
+const PROP_NR: u64 = 20;
+
+fn entry(name: &str) { ENTRY.store(entry_id(name), Ordering::Relaxed); }
+
+// ------------------------------------------------------------------------------------------------ sources and case table
+
+pub struct Seeds { pub files: Vec<Sample>, pub np: Vec<u32>, pub rich: Vec<Vec<u8>> }
+
+pub fn seeds() -> Seeds {
+    let files = valid_files();
+    let np = files.iter().map(|f| {
+        guard(|| with_file!(f.bytes.clone(), Cfg { cached: false, tolerant: false }, &f.password, |x| x.map(|x| x.num_pages()).unwrap_or(0))).unwrap_or(0)
+    }).collect();
+    let rich = [Layout::Classic, Layout::XrefStream, Layout::Incremental].iter().map(|l| richdoc::write(&richdoc::objects(), *l, b"")).collect();
+    Seeds { files, np, rich }
+}
+
+#[derive(Clone, Debug)]
+pub struct Spec { pub src: SrcKind, pub pages: Vec<u32>, pub old_cached: bool, pub new_cached: bool }
+#[derive(Clone, Debug, PartialEq)]
+pub enum SrcKind { Corpus(usize), Rich(usize), Gen(u64) }
+
+/// ordered selections of up to 3 distinct pages out of `np` (all of them when np <= 4, else sliding windows)
+fn selections(np: u32, all: bool) -> Vec<Vec<u32>> {
+    let mut v: Vec<Vec<u32>> = (0..np).map(|p| vec![p]).collect();
+    if np >= 2 {
+        if np <= 4 && all {
+            for a in 0..np { for b in 0..np { if a != b { v.push(vec![a, b]); for c in 0..np { if c != a && c != b { v.push(vec![a, b, c]); } } } } }
+        } else {
+            for p in 0..np - 1 { v.push(vec![p, p + 1]); v.push(vec![p + 1, p]); }
+            for p in 0..np.saturating_sub(2) { v.push(vec![p, p + 1, p + 2]); v.push(vec![p + 2, p, p + 1]); }
+        }
+    }
+    for p in 0..np.min(3) { v.push(vec![p, p]); }
+    v
+}
+
+pub struct Table { pub fixed: Vec<Spec>, pub n_corpus: u64, pub n_rich: u64 }
+pub fn table(sd: &Seeds, tier: Tier) -> Table {
+    let quick = tier == Tier::Quick;
+    let mut fixed = Vec::new();
+    let mut k = 0usize;
+    for (fi, f) in sd.files.iter().enumerate() {
+        if quick && f.bytes.len() > 100_000 { continue; }
+        let mut sel = selections(sd.np[fi], !quick);
+        if quick { let singles = sd.np[fi] as usize; sel.truncate(singles + 8); }
+        for pages in sel { fixed.push(Spec { src: SrcKind::Corpus(fi), pages, old_cached: k % 2 == 0, new_cached: (k / 2) % 2 == 0 }); k += 1; }
+    }
+    let n_corpus = fixed.len() as u64;
+    for li in 0..sd.rich.len() {
+        for pages in selections(3, true) { for v in 0..2 { fixed.push(Spec { src: SrcKind::Rich(li), pages: pages.clone(), old_cached: (k + v) % 2 == 0, new_cached: ((k / 2) + v) % 2 == 0 }); } k += 1; }
+    }
+    let n_rich = fixed.len() as u64 - n_corpus;
+    Table { fixed, n_corpus, n_rich }
+}
+
+/// A fully materialised case.
+pub struct Case { pub name: String, pub bytes: Vec<u8>, pub password: Vec<u8>, pub pages: Vec<u32>, pub old_cached: bool, pub new_cached: bool, pub labels: Vec<String>, pub tape: Vec<u32> }
+
+fn gen_case(s: &mut Src) -> Case {
+    let doc = c20_gen::gen(s);
+    let count = 1 + s.draw(3);
+    let mut pages = Vec::new();
+    for _ in 0..count { pages.push(s.draw(doc.n_pages)); }
+    if count > 1 { s.label("multi-page"); }
+    let old_cached = s.alt(1, &["old-cached", "old-uncached"]) == 0;
+    let new_cached = s.alt(1, &["new-cached", "new-uncached"]) == 0;
+    let labels = s.labels.iter().map(|l| l.to_string()).collect();
+    Case { name: "generated".into(), bytes: doc.bytes, password: vec![], pages, old_cached, new_cached, labels, tape: s.tape.clone() }
+}
+
+pub fn make_case(sd: &Seeds, t: &Table, seed: u64, idx: u64) -> Case {
+    if (idx as usize) < t.fixed.len() {
+        let sp = &t.fixed[idx as usize];
+        match sp.src {
+            SrcKind::Corpus(fi) => Case { name: format!("corpus:{}", sd.files[fi].name), bytes: sd.files[fi].bytes.clone(), password: sd.files[fi].password.clone(), pages: sp.pages.clone(), old_cached: sp.old_cached, new_cached: sp.new_cached, labels: vec!["corpus".into()], tape: vec![] },
+            SrcKind::Rich(li) => Case { name: format!("richdoc:{}", ["classic", "xref-stream", "incremental"][li]), bytes: sd.rich[li].clone(), password: vec![], pages: sp.pages.clone(), old_cached: sp.old_cached, new_cached: sp.new_cached, labels: vec!["richdoc".into()], tape: vec![] },
+            SrcKind::Gen(_) => unreachable!(),
+        }
+    } else {
+        let gi = idx - t.fixed.len() as u64;
+        let mut s = Src::fresh(Rng::derive(seed, PROP_NR, gi));
+        gen_case(&mut s)
+    }
+}
+
+// ------------------------------------------------------------------------------------------------ execution + oracle
+
+#[derive(Clone, Debug)]
+pub struct Viol { pub class: String, pub locus: String, pub what: String }
+impl Viol { fn key(&self) -> String { if self.locus.is_empty() { self.class.clone() } else { format!("{}:{}", self.class, self.locus) } } }
+
+#[derive(Default)]
+pub struct Res { pub viol: Vec<Viol>, pub compared: u64, pub built_pages: u64 }
+
+/// error kind for the evidence: variant of the root cause; for the catch-all variant also the message template
+fn err_kind(e: &PdfError) -> String {
+    match crate::doc::root_cause(e) {
+        PdfError::Other { msg } => format!("Other({})", crate::panicmon::template(&msg.replace("/repo/", "")).chars().take(70).collect::<String>()),
+        other => { let _ = other; root_kind(e) }
+    }
+}
+
+fn bump(c: &mut BTreeMap<String, u64>, k: &str) { *c.entry(k.to_string()).or_insert(0) += 1; }
+
+struct OldPage { idx: u32, pref: PlainRef, ops: Option<Vec<Op>> }
+
+/// (resource category, name) pairs the operations use, in order of first use
+pub fn used_resources(ops: &[Op]) -> Vec<(&'static str, String)> {
+    let mut v: Vec<(&'static str, String)> = Vec::new();
+    let mut push = |c: &'static str, n: &str| { if !v.iter().any(|(a, b)| *a == c && b == n) { v.push((c, n.to_string())); } };
+    for op in ops {
+        match op {
+            Op::GraphicsState { name } => push("ExtGState", name.as_str()),
+            Op::TextFont { name, .. } => push("Font", name.as_str()),
+            Op::XObject { name } => push("XObject", name.as_str()),
+            Op::Shade { name } => push("Shading", name.as_str()),
+            Op::FillColorSpace { name } | Op::StrokeColorSpace { name } => push("ColorSpace", name.as_str()),
+            Op::FillColor { color: Color::Other(a) } | Op::StrokeColor { color: Color::Other(a) } => { if let Some(Primitive::Name(n)) = a.last() { push("Pattern", n.as_str()); } }
+            Op::BeginMarkedContent { properties: Some(Primitive::Name(n)), .. } | Op::MarkedContentPoint { properties: Some(Primitive::Name(n)), .. } => push("Properties", n.as_str()),
+            _ => {}
+        }
+    }
+    v
+}
+
+fn first_op_difference(a: &[Op], b: &[Op]) -> Option<(String, String)> {
+    for i in 0..a.len().min(b.len()) {
+        if !opsgen::op_eq(&a[i], &b[i]) { return Some((opsgen::op_kind(&a[i]), format!("operation #{} differs: source {} / imported {} ({} vs {} operations)", i, opsgen::show_op(&a[i]), opsgen::show_op(&b[i]), a.len(), b.len()))); }
+    }
+    if a.len() != b.len() {
+        let k = if a.len() > b.len() { opsgen::op_kind(&a[b.len()]) } else { opsgen::op_kind(&b[a.len()]) };
+        return Some((format!("count/{}", k), format!("source page has {} operations, imported page has {}", a.len(), b.len())));
+    }
+    None
+}
+
+const PAGE_KEYS: [&str; 9] = ["Type", "Parent", "Resources", "MediaBox", "CropBox", "TrimBox", "Contents", "Rotate", "Annots"];
+
+/// The oracle proper: old file (through `old`) against the reloaded new file.
+fn oracle<RO, B, OC, SC, L>(old: &RO, olds: &[OldPage], nf: &File<B, OC, SC, L>, res: &mut Res, c: &mut BTreeMap<String, u64>)
+where RO: Resolve, B: Backend, OC: Cache<Result<AnySync, Arc<PdfError>>>, SC: Cache<Result<Arc<[u8]>, Arc<PdfError>>>, L: Log,
+{
+    let new = nf.resolver();
+    let np = guard(|| nf.num_pages()).unwrap_or(u32::MAX);
+    if np as usize != olds.len() { res.viol.push(Viol { class: "reload-error".into(), locus: "page-count".into(), what: format!("{} pages were imported, the reloaded document has {}", olds.len(), np) }); return; }
+    let mut w = Walk::new(old, &new);
+    for (k, op) in olds.iter().enumerate() {
+        let page = match guard(|| nf.get_page(k as u32)) {
+            Ok(Ok(p)) => p,
+            Ok(Err(e)) => { res.viol.push(Viol { class: "reload-error".into(), locus: format!("get_page:{}", root_kind(&e)), what: format!("page {} of the new document cannot be read: {}", k, e) }); continue; }
+            Err(p) => { res.viol.push(Viol { class: p.signature(), locus: String::new(), what: format!("get_page on the new document panicked: {}", p.describe()) }); continue; }
+        };
+        // ---- operations
+        let new_ops = match guard(|| page.contents.as_ref().map(|c| c.operations(&new)).transpose()) {
+            Ok(Ok(o)) => o.unwrap_or_default(),
+            Ok(Err(e)) => { res.viol.push(Viol { class: "reload-error".into(), locus: format!("operations:{}", root_kind(&e)), what: format!("content of new page {} cannot be read: {}", k, e) }); continue; }
+            Err(p) => { res.viol.push(Viol { class: p.signature(), locus: String::new(), what: format!("operations() on the new page panicked: {}", p.describe()) }); continue; }
+        };
+        let Some(old_ops) = &op.ops else { bump(c, "old_ops_unreadable_but_imported"); continue };
+        if let Some((locus, what)) = first_op_difference(old_ops, &new_ops) { res.viol.push(Viol { class: "wrong-ops".into(), locus, what: format!("source page {} -> new page {}: {}", op.idx, k, what) }); }
+        // ---- boxes and rotation (effective values read from the raw graphs, with inheritance)
+        let (Some(orp), Some(nrp)) = (rw::raw_page(old, op.pref), rw::raw_page(&new, page.get_ref().get_inner())) else { bump(c, "raw_page_unreadable"); continue };
+        for i in &orp.inherited { bump(c, &format!("source_inherited:{}", i)); }
+        if orp.media.is_some() && orp.media.map(|m| m.map(|x| x as f32)) != nrp.media.map(|m| m.map(|x| x as f32)) {
+            res.viol.push(Viol { class: "wrong-box".into(), locus: format!("MediaBox{}", if orp.inherited.contains(&"MediaBox") { "(inherited)" } else { "" }), what: format!("media box {:?} became {:?}", orp.media, nrp.media) });
+        }
+        if orp.crop.is_some() && orp.crop.map(|m| m.map(|x| x as f32)) != nrp.crop.map(|m| m.map(|x| x as f32)) {
+            res.viol.push(Viol { class: "wrong-box".into(), locus: format!("CropBox{}", if orp.inherited.contains(&"CropBox") { "(inherited)" } else { "" }), what: format!("crop box {:?} became {:?}", orp.crop, nrp.crop) });
+        }
+        if orp.rotate.rem_euclid(360) != nrp.rotate.rem_euclid(360) {
+            res.viol.push(Viol { class: "wrong-rotate".into(), locus: if orp.inherited.contains(&"Rotate") { "inherited".into() } else { "own".into() }, what: format!("rotation {} became {}", orp.rotate, nrp.rotate) });
+        }
+        // ---- resources the operations use
+        w.content = true;
+        for (cat, name) in used_resources(old_ops) {
+            let o = rw::resource_entry(old, &orp.resources, cat, &name);
+            let n = rw::resource_entry(&new, &nrp.resources, cat, &name);
+            match (o, n) {
+                (None, _) => {
+                    // the source page itself does not define the name (device colour spaces, /Pattern, undefined names)
+                    bump(c, &format!("source_lacks:{}", cat));
+                }
+                (Some(o), None) => {
+                    bump(c, &format!("resource_missing:{}", cat));
+                    res.viol.push(Viol { class: "resource-differs".into(), locus: format!("{}:missing", cat), what: format!("operations use /{} of /{}; the source page defines it ({}), the imported page does not", name, cat, format!("{:?}", o).chars().take(80).collect::<String>()) });
+                }
+                (Some(o), Some(n)) => { bump(c, &format!("resource_compared:{}", cat)); res.compared += 1; w.compare(cat, &o, &n); }
+            }
+        }
+        // ---- entries copied verbatim: reference relation (and leaked references) only
+        w.content = false;
+        for (k, ov) in orp.dict.iter() {
+            if PAGE_KEYS.contains(&k.as_str()) { continue; }
+            match nrp.dict.get(k.as_str()) { Some(nv) => { bump(c, "page_entry_walked"); w.compare(&format!("Page.{}", k.as_str()), ov, nv); } None => bump(c, &format!("page_entry_not_copied:{}", k.as_str())) }
+        }
+    }
+    if w.truncated { bump(c, "walk_truncated"); }
+    for (k, v) in &w.counters { *c.entry(format!("walk:{}", k)).or_insert(0) += v; }
+    for f in &w.findings { res.viol.push(Viol { class: f.class.into(), locus: f.locus.clone(), what: f.detail.clone() }); }
+    // ---- closure: every reference in the new file resolves
+    let size = nf.trailer.size.max(0) as u64;
+    let root = nf.trailer.root.get_ref().get_inner();
+    let (checked, bad) = rw::closure(&new, size, &[root]);
+    *c.entry("closure_references_checked".into()).or_insert(0) += checked;
+    for (r, from, kind) in bad.iter().take(5) {
+        let (cl, what) = rw::unresolved_class(kind);
+        res.viol.push(Viol { class: cl.into(), locus: what, what: format!("reference {} found in {} of the new document does not resolve ({})", rw::show_ref(*r), from, kind) });
+    }
+}
+
+fn import_with<B, OC, SC, L, SC2, OC2, L2>(f: &File<B, OC, SC, L>, mut builder: PdfBuilder<SC2, OC2, L2>, case: &Case, res: &mut Res, c: &mut BTreeMap<String, u64>)
+where B: Backend, OC: Cache<Result<AnySync, Arc<PdfError>>>, SC: Cache<Result<Arc<[u8]>, Arc<PdfError>>>, L: Log,
+      SC2: Cache<Result<AnySync, Arc<PdfError>>>, OC2: Cache<Result<Arc<[u8]>, Arc<PdfError>>>, L2: Log,
+{
+    let old = f.resolver();
+    let mut olds: Vec<OldPage> = Vec::new();
+    let mut built: Vec<PageBuilder> = Vec::new();
+    {
+        let mut importer = Importer::new(f.resolver(), &mut builder.storage);
+        for &pi in &case.pages {
+            entry("get_page");
+            let page = match guard(|| f.get_page(pi)) { Ok(Ok(p)) => p, Ok(Err(e)) => { bump(c, &format!("source_page_unreadable:{}", root_kind(&e))); continue; } Err(_) => { bump(c, "source_page_panic(C01 territory)"); continue; } };
+            entry("contents_operations");
+            let ops = match guard(|| page.contents.as_ref().map(|c| c.operations(&old)).transpose()) { Ok(Ok(o)) => Some(o.unwrap_or_default()), _ => None };
+            entry("import_clone_page");
+            let r = guard(|| PageBuilder::clone_page(&page, &mut importer));
+            entry("idle");
+            match r {
+                Ok(Ok(pb)) => { bump(c, "clone_page_ok"); built.push(pb); olds.push(OldPage { idx: pi, pref: page.get_ref().get_inner(), ops }); }
+                Ok(Err(e)) => { bump(c, &format!("clone_page_err:{}", err_kind(&e))); }
+                Err(p) => { res.viol.push(Viol { class: p.signature(), locus: String::new(), what: format!("PageBuilder::clone_page panicked: {}", p.describe()) }); return; }
+            }
+        }
+    }
+    if built.is_empty() { return; }
+    entry("import_build");
+    let r = guard(move || builder.build(CatalogBuilder::from_pages(built)));
+    entry("idle");
+    let bytes = match r {
+        Ok(Ok(b)) => { bump(c, "build_ok"); b }
+        Ok(Err(e)) => { bump(c, &format!("build_err:{}", err_kind(&e))); return; }
+        Err(p) => { res.viol.push(Viol { class: p.signature(), locus: String::new(), what: format!("PdfBuilder::build panicked: {}", p.describe()) }); return; }
+    };
+    res.built_pages = olds.len() as u64;
+    entry("import_reload");
+    let cfg = Cfg { cached: case.new_cached, tolerant: false };
+    let r = guard(|| with_file!(bytes.clone(), cfg, b"", |nf| match nf {
+        Ok(nf) => { entry("idle"); oracle(&old, &olds, &nf, res, c); None }
+        Err(e) => Some(e),
+    }));
+    entry("idle");
+    match r {
+        Ok(None) => {}
+        Ok(Some(e)) => res.viol.push(Viol { class: "reload-error".into(), locus: format!("load:{}", root_kind(&e)), what: format!("the built document ({} bytes) cannot be loaded: {}", bytes.len(), e) }),
+        Err(p) => res.viol.push(Viol { class: p.signature(), locus: String::new(), what: format!("panic while reloading / checking the new document: {}", p.describe()) }),
+    }
+}
+
+/// Run one case on the real library.
+pub fn exec(case: &Case, c: &mut BTreeMap<String, u64>) -> Res {
+    let mut res = Res::default();
+    entry("load");
+    let cfg = Cfg { cached: case.old_cached, tolerant: false };
+    let r = guard(|| with_file!(case.bytes.clone(), cfg, &case.password, |f| match f {
+        Ok(f) => {
+            entry("idle");
+            if case.new_cached { import_with(&f, PdfBuilder::new(FileOptions::cached()), case, &mut res, c) } else { import_with(&f, PdfBuilder::new(FileOptions::uncached()), case, &mut res, c) }
+            true
+        }
+        Err(_) => false,
+    }));
+    entry("idle");
+    match r {
+        Ok(true) => {}
+        Ok(false) => bump(c, "source_load_error"),
+        Err(p) => res.viol.push(Viol { class: p.signature(), locus: String::new(), what: format!("panic outside the guarded import calls: {}", p.describe()) }),
+    }
+    res
+}
+
+fn label_set(labels: &[String]) -> String { let mut l: Vec<&str> = labels.iter().map(|s| s.as_str()).collect(); l.sort(); l.dedup(); if l.is_empty() { "plain".into() } else { l.join("+") } }
+
+/// panics are signed by location only (labels go into the witness); everything else as C20|<shrunk label set>|<class>:<locus>
+/// Signatures are deliberately coarse (outcome class + resource category + affected entry): the shrunk label set goes
+/// into the witness. Finer signatures proved unstable across seeds for the defects that stay open.
+fn sig_for(labels: &[String], v: &Viol) -> String {
+    let _ = labels;
+    if v.class.starts_with("panic|") { return format!("C20|{}", v.class); }
+    let (path, kind) = v.locus.rsplit_once(':').unwrap_or((v.locus.as_str(), ""));
+    let first = path.split(|c| c == '.' || c == '[').next().unwrap_or("");
+    let last = path.rsplit('.').next().unwrap_or("").trim_end_matches("[]");
+    match v.class.as_str() {
+        "copied-twice" | "conflated" => format!("C20|{}|{}", v.class, first),
+        "resource-differs" => format!("C20|resource-differs|{}|{}:{}", first, if last == first { "" } else { last }, kind),
+        _ => format!("C20|{}", v.key()),
+    }
+}
+
+pub fn run_case(sd: &Seeds, t: &Table, seed: u64, idx: u64, out: &mut CaseOut, c: &mut BTreeMap<String, u64>) {
+    let case = make_case(sd, t, seed, idx);
+    let res = exec(&case, c);
+    bump(c, &format!("source:{}", case.name.split(':').next().unwrap_or("")));
+    if case.tape.is_empty() { bump(c, &format!("file:{}", case.name)); if res.built_pages > 0 { bump(c, &format!("file_built:{}", case.name)); } } else { for l in &case.labels { bump(c, &format!("label:{}", l)); } }
+    bump(c, &format!("pages_in_case:{}", case.pages.len()));
+    if res.built_pages > 0 { out.nontrivial = Some(fnv(&[&case.bytes[..], &case.pages.iter().flat_map(|p| p.to_le_bytes()).collect::<Vec<u8>>()[..], &[case.old_cached as u8, case.new_cached as u8]].concat())); bump(c, "cases_built_and_compared"); }
+    *c.entry("resources_compared".into()).or_insert(0) += res.compared;
+    if idx % 97 == 0 || idx < 2 { out.sample = Some(json!({"idx": idx, "source": case.name, "pages": case.pages, "labels": case.labels, "old_cached": case.old_cached, "new_cached": case.new_cached, "built_pages": res.built_pages, "resources_compared": res.compared})); }
+    let mut seen: Vec<String> = Vec::new();
+    for v in &res.viol {
+        let key = v.key();
+        if seen.contains(&key) { continue; }
+        seen.push(key.clone());
+        bump(c, &format!("outcome:{}", v.class.split('|').next().unwrap_or("")));
+        let (labels, tape, pages) = if !case.tape.is_empty() {
+            // shrink the tape with the oracle re-run on the real code
+            let mut scratch = BTreeMap::new();
+            let mut fails = |cand: &[u32]| { let mut s = Src::replay(cand); let cs = gen_case(&mut s); exec(&cs, &mut scratch).viol.iter().any(|x| x.key() == key) };
+            let mut shrunk = crate::tape::shrink(&case.tape, &mut fails, 150);
+            // canonical pass: every entry to the smallest value that still fails (the generic shrinker only tries 0, 1 and half)
+            let mut budget = 400;
+            let mut i = 0;
+            while i < shrunk.len() && budget > 0 {
+                for v in 0..shrunk[i] { budget -= 1; let mut cand = shrunk.clone(); cand[i] = v; if fails(&cand) { shrunk = cand; break; } if budget == 0 { break; } }
+                i += 1;
+            }
+            while shrunk.last() == Some(&0) { shrunk.pop(); }
+            let mut s = Src::replay(&shrunk);
+            let cs = gen_case(&mut s);
+            (cs.labels, shrunk, cs.pages)
+        } else { (case.labels.clone(), case.tape.clone(), case.pages.clone()) };
+        let sig = sig_for(&labels, v);
+        out.violations.push((sig, v.what.clone(), json!({"source": case.name, "pages": pages, "labels": labels, "tape": tape, "old_cached": case.old_cached, "new_cached": case.new_cached, "all_labels_of_original_case": case.labels})));
+    }
+}
+
+pub fn worker(tier: Tier, seed: u64) -> CaseFn<'static> {
+    let sd = seeds();
+    let t = table(&sd, tier);
+    Box::new(move |idx, out, counters| run_case(&sd, &t, seed, idx, out, counters))
+}
+
+/// `C20_TAPE=1,2,3 pdfmon C20 quick` / `C20_ONLY=<idx>`: run one case in this process and print what the oracle says (replay aid).
+fn debug_single(run: &Run) -> bool {
+    let sd = seeds();
+    let t = table(&sd, run.tier);
+    if let Ok(l) = std::env::var("C20_FIND") {
+        let want: Vec<&str> = l.split('+').collect();
+        let mut found = 0;
+        for gi in 0..100_000u64 { let mut s = Src::fresh(Rng::derive(run.seed, PROP_NR, gi)); let c = gen_case(&mut s); if want.iter().all(|w| c.labels.iter().any(|x| x == w)) { println!("idx={} labels={:?} tape={:?}", gi + t.fixed.len() as u64, c.labels, c.tape); found += 1; if found >= 5 { break; } } }
+        return true;
+    }
+    let case = if let Ok(tp) = std::env::var("C20_TAPE") { let tape: Vec<u32> = tp.split(',').filter_map(|x| x.trim().parse().ok()).collect(); let mut s = Src::replay(&tape); gen_case(&mut s) }
+        else if let Ok(i) = std::env::var("C20_ONLY") { make_case(&sd, &t, run.seed, i.parse().unwrap_or(0)) } else { return false };
+    println!("case: source={} pages={:?} labels={:?} old_cached={} new_cached={} bytes={}", case.name, case.pages, case.labels, case.old_cached, case.new_cached, case.bytes.len());
+    if let Ok(p) = std::env::var("C20_DUMP") { let _ = std::fs::write(&p, &case.bytes); }
+    let mut c = BTreeMap::new();
+    let res = exec(&case, &mut c);
+    println!("built_pages={} resources_compared={}", res.built_pages, res.compared);
+    for (k, v) in &c { println!("  {} = {}", k, v); }
+    for v in &res.viol { println!("VIOL {} :: {}", sig_for(&case.labels, v), v.what); }
+    true
+}
+
+pub fn run(run: &Run) {
+    if debug_single(run) { std::process::exit(0); }
+    run.rule("case i (deterministic in seed,i): a source document, an ordered selection of 1-3 of its pages (incl. the same page twice), imported through ONE Importer into a fresh PdfBuilder (old file and builder each cached or uncached), CatalogBuilder::from_pages + PdfBuilder::build, reload. Sources: every page of every loadable sample file of the repository (encrypted ones with their password, object-stream / xref-stream files; quick: files <= 100 kB) alone and in adjacent pairs/triples/permutations; the rich generated document in 3 layouts x all ordered selections of its 3 pages; tape-generated documents (1-3 pages; Type1 / embedded TrueType / Type0 fonts, optionally sharing ToUnicode+descriptor; 0-2 images of 8 kinds; 0-2 form XObjects using the page font / an image / another form; ExtGState direct, indirect, with /Font; named colour space, tiling pattern, shading, property list, inline image; resources direct, indirect, one object shared by all pages, inherited from the page tree; own / inherited / real-valued / corner-swapped boxes; own / inherited rotation; nested page tree; single, array and Flate contents; page entries copied verbatim: scalars, dictionaries, references, shared references, streams, metadata and reference cycles (2-ring, self reference, /Parent+/Next+/Prev ring, bead /P back to the page, annotations with /P and /Popup+/Parent); classic, xref-stream+object-stream and incremental layout). Every case runs in a child process. Oracle when clone_page and build return Ok: page count; per page equal operation sequence (opsgen::op_eq), equal effective MediaBox/CropBox/Rotate read from the raw graphs with inheritance (7.7.3.4), and for every (category,name) the operations use a simultaneous walk of the source object graph and the copy (keys, array positions, scalars with Integer n = Real n, null = absent, stream raw data and Filter/DecodeParms; /Length ignored; entries only the copy has are counted, not judged) under a relation old-ref <-> new-ref that must be a bijection (copied-twice / conflated; a source object that becomes a direct object at two places is copied-twice); other page entries are walked for the relation and for unchanged (leaked) references only; every reference in any object of the new file must resolve. An Err from clone_page/build is allowed and counted per kind; panics and child deaths are violations. Generated failures are shrunk on the tape before signing. distinct_nontrivial = distinct (source, selection, configuration) for which build succeeded and the comparison ran");
+    run.assume("the effective page attributes are those of PDF 32000-1 7.7.3.4 (Resources, MediaBox, CropBox, Rotate inheritable; CropBox defaults to MediaBox; rectangles normalised)");
+    run.assume("content equality is modulo: Integer n = Real n (as f32), null-valued entry = absent entry, direct vs indirect placement, /Length, and additional entries in the copy (counted under walk:added_key:*)");
+    let sd = seeds();
+    let t = table(&sd, run.tier);
+    let n_gen = run.n(1_000, 20_000);
+    let n = t.fixed.len() as u64 + n_gen;
+    run.add("cases_corpus", t.n_corpus);
+    run.add("cases_richdoc", t.n_rich);
+    run.add("cases_generated", n_gen);
+    for (i, f) in sd.files.iter().enumerate() { run.add(&format!("corpus_pages:{}", f.name), sd.np[i] as u64); }
+    run.exhaustive("every page of every selected corpus file alone; rich document: 3 layouts x all ordered selections of <= 3 distinct pages", true);
+    let seed = run.seed;
+    let written = std::sync::atomic::AtomicU64::new(0);
+    crate::sup::run_cases(run, "C20", n, 1, &|idx| {
+        let c = make_case(&sd, &t, seed, idx);
+        // which kind of case killed its worker (the signature only names the entry point)
+        let cyc: Vec<&str> = c.labels.iter().map(|l| l.as_str()).filter(|l| l.starts_with("cycle-")).collect();
+        run.count(&format!("worker_death:{}:{}", c.name, if cyc.is_empty() { "no-cycle-label".to_string() } else { cyc.join("+") }));
+        // the source document of the first few worker deaths is kept for replay (all of them can be regenerated from seed + idx or the tape)
+        let path = if written.fetch_add(1, Ordering::Relaxed) < 8 {
+            let path = format!("{}/replay/C20-input-{}.pdf", crate::run::verif_root(), idx);
+            let _ = std::fs::create_dir_all(format!("{}/replay", crate::run::verif_root()));
+            let _ = std::fs::write(&path, &c.bytes);
+            path
+        } else { String::from("(not written; regenerate with C20_ONLY=<idx> C20_DUMP=<file>)") };
+        (label_set(&c.labels), json!({"source": c.name, "pages": c.pages, "labels": c.labels, "tape": c.tape, "old_cached": c.old_cached, "new_cached": c.new_cached, "input_file": path, "idx": idx}))
+    });
+}
